@@ -97,9 +97,14 @@ pub fn string_constructor_fn(
             obj.borrow_mut().exotic = ExoticObject::StringObj(str_val.cheap_clone());
             // Also set the length property (String objects have a read-only length)
             let length_key = PropertyKey::String(interp.intern("length"));
-            obj.borrow_mut().set_property(
+            obj.borrow_mut().define_property(
                 length_key,
-                JsValue::Number(str_val.as_str().chars().count() as f64),
+                crate::value::Property::with_attributes(
+                    JsValue::Number(str_val.as_str().chars().count() as f64),
+                    false,
+                    false,
+                    false,
+                ),
             );
             return Ok(Guarded::unguarded(this));
         }
